@@ -173,7 +173,12 @@ def run(ctx):
                 while par is not None and par.get('k') in ('AddrOf', 'Block') and hops < 3:
                     cur, par = par, parents.get(id(par))
                     hops += 1
-                if par is not None and par.get('k') in ('Call', 'MethodCall') and par.get('callee'):
+                if par is not None and par.get('k') == 'MethodCall' and norm_path(par.get('callee') or '').endswith('::extend') \
+                        and local_id_of(par.get('recv')) is not None and cur is not par.get('recv'):
+                    # appended to a local vector: fine when this function then sorts that vector with a total key
+                    srt = [x for x in sorts if local_id_of(x.get('recv')) == local_id_of(par.get('recv'))]
+                    verdict = sort_verdict(srt[0]) if srt else ('bad', 'appended to a vector that is never sorted in this function')
+                elif par is not None and par.get('k') in ('Call', 'MethodCall') and par.get('callee'):
                     g = norm_path(par['callee'])
                     gh = F.hir.get(g) or F.hir.get(getattr(F, '_norm_hir', {}).get(g, ''))
                     if gh is None:
